@@ -394,3 +394,7 @@ CHECKS = [
     Check("adapter_misc", judge_adapter_misc, strategy=strat_adapter_misc, quick=300, thorough=5000,
           rule="SourceEl over re-iterable containers gives the same flow on every call (also after a partial read); Run(None, run=f)."),
 ]
+
+
+from .. import covfuzz  # noqa
+CHECKS.append(covfuzz.check(CHECKS, "harness.props.c05", "three_drivers", quick=1500, thorough=100000))
